@@ -6,6 +6,7 @@ import (
 	"fmt"
 	"go/token"
 	"go/types"
+	"os"
 	"sort"
 	"strings"
 
@@ -70,6 +71,62 @@ func semEqual(u *U, a, b *E) (bool, string) {
 		}
 		f := func(at *E) bool { return asg[u.atomIx[at.key]] }
 		x, y := u.EvalUnder(a, f), u.EvalUnder(b, f)
+		if x != y {
+			// congruence: under an equality A == B assumed by this case, A and B are interchangeable;
+			// cases that give the two copies of one atom different truth values do not exist
+			sub := map[string]*E{}
+			for _, v := range vs {
+				at := u.atoms[v]
+				if !asg[v] || at.Op != "eq" || at.Args[0].Op == "const" || at.Args[1].Op == "const" || at.Args[0].IsNil() || at.Args[1].IsNil() {
+					continue
+				}
+				from, to := at.Args[1], at.Args[0]
+				if from.key < to.key {
+					from, to = to, from
+				}
+				sub[from.key] = to
+			}
+			// atoms over selected values (x == ite(c, a, b)) are decided by the atoms over the alternatives
+			care := True
+			composite := false
+			for _, v := range vs {
+				lit := u.bdd.Var(v)
+				if !asg[v] {
+					lit = u.bdd.Not(lit)
+				}
+				care = u.bdd.And(care, lit)
+				if u.Mentions(u.atoms[v], func(e *E) bool { return e.Op == "ite" }) {
+					composite = true
+				}
+			}
+			if len(sub) > 0 || composite {
+				feasible := true
+				img := map[Ref]bool{}
+				for _, v := range vs {
+					at := u.atoms[v]
+					if composite {
+						at = u.Specialize(at, care)
+					}
+					k := u.ToBool(u.Subst(at, sub))
+					if (k == True && !asg[v]) || (k == False && asg[v]) {
+						feasible = false
+					}
+					if prev, have := img[k]; have && prev != asg[v] {
+						feasible = false
+					}
+					img[k] = asg[v]
+					if nk := u.bdd.Not(k); k != True && k != False {
+						if prev, have := img[nk]; have && prev == asg[v] {
+							feasible = false
+						}
+					}
+				}
+				if !feasible {
+					continue
+				}
+				x, y = u.Subst(x, sub), u.Subst(y, sub)
+			}
+		}
 		if x != y {
 			var lits []string
 			for _, v := range vs {
@@ -187,7 +244,11 @@ func runC17(c *Ctx) {
 		// compare under each combination of the two fallback tests (the domains are if-then-else values)
 		e1 := u.Eq(u.Call(calleeName(etld), strT, host), u.Str(""))
 		e2 := u.Eq(u.Call(calleeName(etld), strT, shost), u.Str(""))
-		for m := 0; m < 4; m++ {
+		semOK, semWhy := semEqual(u, tp, wantTP)
+		if os.Getenv("UFCHECK_DEBUG_C17") != "" {
+			fmt.Println("TP sem:", semOK, semWhy)
+		}
+		for m := 0; m < 4 && !semOK; m++ {
 			sub := map[string]*E{}
 			for i, e := range []*E{e1, e2} {
 				for _, v := range u.bdd.Support(u.ToBool(e)) {
